@@ -163,7 +163,13 @@ func (c *layoutCase) render() (src string, model []string, decls [][]declRef) {
 			// a line directive (as goyacc, cgo and templating tools leave them): what follows belongs, for every
 			// position-reporting function, to another file and other line numbers.  The directive is a comment of its own,
 			// detached from what follows by the empty line that ends every section; each names a file of its own.
+			// the target: by default a file of its own per directive; a row of kind "x" names file and line — a file shared
+			// with other directives, the source file itself, or an absolute path in another directory — so that lines
+			// behind the directive are numbered like lines elsewhere
 			l := fmt.Sprintf("line gen%d.y:%d", si, max(len(s.Rows), 1)*7)
+			if len(s.Rows) > 0 && s.Rows[0].K == "x" && len(s.Rows[0].Lines) == 1 {
+				l = fmt.Sprintf("line %s:%d", s.Rows[0].Lines[0], max(s.Rows[0].H, 1))
+			}
 			b.WriteString("//" + l + "\n")
 			model = append(model, "c", "1", hx(l))
 			b.WriteString("\n")
@@ -322,6 +328,8 @@ func siblingFile(src string) string {
 	s = strings.ReplaceAll(s, "// ", "// other-file ")
 	s = strings.ReplaceAll(s, "/* ", "/* other-file ")
 	s = strings.ReplaceAll(s, "//line gen", "//line qgen")
+	s = strings.ReplaceAll(s, "//line /abs/elsewhere/gen", "//line /abs/elsewhere/qgen")
+	s = strings.ReplaceAll(s, "//line p.go:", "//line q.go:")
 	return s
 }
 
@@ -558,6 +566,8 @@ func (c *layoutCase) Key() string {
 			switch r.K {
 			case "b":
 				rs = append(rs, "blank")
+			case "x":
+				rs = append(rs, fmt.Sprintf("target(%q:%d)", r.Lines, r.H))
 			case "c":
 				rs = append(rs, fmt.Sprintf("comment%q", r.Lines))
 			case "d":
@@ -573,6 +583,16 @@ func (c *layoutCase) Classes() []string {
 	m := map[string]bool{}
 	for _, s := range c.Sections {
 		m["section:"+s.Kind] = true
+		if s.Kind == "linedir" && len(s.Rows) > 0 && s.Rows[0].K == "x" && len(s.Rows[0].Lines) == 1 {
+			switch t := s.Rows[0].Lines[0]; {
+			case t == "p.go":
+				m["line-directive:own-file"] = true
+			case strings.HasPrefix(t, "/"):
+				m["line-directive:other-directory"] = true
+			default:
+				m["line-directive:shared-target"] = true
+			}
+		}
 		prev := ""
 		for _, r := range s.Rows {
 			switch {
@@ -629,8 +649,12 @@ func genLayout(r *Rng) *layoutCase {
 	ns := 1 + r.Intn(3)
 	id := 0
 	for s := 0; s < ns; s++ {
-		if r.Chance(12) {
-			c.Sections = append(c.Sections, LSection{Kind: "linedir", Rows: make([]LRow, r.Intn(3))})
+		if r.Chance(15) {
+			sec := LSection{Kind: "linedir", Rows: make([]LRow, r.Intn(3))}
+			if r.Chance(60) {
+				sec.Rows = []LRow{{K: "x", Lines: []string{Pick(r, []string{"gen.y", "gen.y", "p.go", "p.go", "/abs/elsewhere/gen.y"})}, H: Pick(r, []int{1, 2, 3, 4, 6, 9})}}
+			}
+			c.Sections = append(c.Sections, sec)
 		}
 		sec := LSection{Kind: Pick(r, []string{"top-var", "top-type", "top-const", "struct", "struct", "const", "var", "type"})}
 		n := 1 + r.Intn(7)
@@ -707,6 +731,8 @@ func enumLayouts(yield func(*layoutCase)) {
 			yield(&layoutCase{Sections: []LSection{{Kind: kind, Rows: append([]LRow{}, rows...)}}})
 			// the same behind a line directive, with an undirected section ahead of it
 			yield(&layoutCase{Sections: []LSection{{Kind: "top-var", Rows: []LRow{{K: "c", Lines: []string{"doc 9"}}, {K: "d", H: 1, Trail: "trail 9"}}}, {Kind: "linedir"}, {Kind: kind, Rows: append([]LRow{}, rows...)}}})
+			// and behind a directive that names the file itself: what follows is numbered like the top of the file (F27)
+			yield(&layoutCase{Sections: []LSection{{Kind: "top-var", Rows: []LRow{{K: "c", Lines: []string{"doc 9"}}, {K: "d", H: 1, Trail: "trail 9"}}}, {Kind: "linedir", Rows: []LRow{{K: "x", Lines: []string{"p.go"}, H: 2}}}, {Kind: kind, Rows: append([]LRow{}, rows...)}}})
 		}
 	}
 	rec = func(rows []LRow, n int) {
@@ -763,14 +789,14 @@ func init() {
 			Name: "layout", Quick: 1600, Thorough: 12000, New: func() Case { return &layoutCase{} },
 			Gen:      func(r *Rng, i int) Case { return genLayout(r) },
 			BatchRun: layoutBatch, ShrinkBudget: 60, MaxShrinks: 6,
-			Rule: "source files of 1–3 sections (ungrouped var/type/const, struct fields, grouped const/var/type) × 1–7 rows among blank line, 1–3-line comment group (line or block comments, tag lines, go: prose), one- or three-line declaration with or without trailing comment, multi-name declarations; loaded with the real types.Load (400 packages per load); Doc and Comment of every declared name compared with the model on the same layout and with the layout's own ground truth; the questions about a freshly loaded package are put by four goroutines at once and all must be told the same; the package holds a second file with the same line structure under other names and with other comment texts; every name is asked twice and the harness scribbles over the first answer (lines, comment, tag map) in between: the second answer must be the same",
+			Rule: "source files of 1–3 sections (ungrouped var/type/const, struct fields, grouped const/var/type) × 1–7 rows among blank line, 1–3-line comment group (line or block comments, tag lines, go: prose), one- or three-line declaration with or without trailing comment, multi-name declarations; in about one file of three a `//line file:N` directive between two sections, naming a file of its own, a file another directive names too, the source file itself or an absolute path in another directory (what follows is then numbered like lines elsewhere); loaded with the real types.Load (400 packages per load); Doc and Comment of every declared name compared with the model on the same layout and with the layout's own ground truth; the questions about a freshly loaded package are put by four goroutines at once and all must be told the same; the package holds a second file with the same line structure under other names and with other comment texts; every name is asked twice and the harness scribbles over the first answer (lines, comment, tag map) in between: the second answer must be the same",
 		},
 		{
 			Name: "layout-enum", New: func() Case { return &layoutCase{} },
 			Enum:           func(tier string, yield func(Case)) { enumLayouts(func(c *layoutCase) { yield(c) }) },
 			EnumExhaustive: true,
 			BatchRun:       layoutBatch, ShrinkBudget: 60, MaxShrinks: 6,
-			Rule: "every layout of ≤ 3 consecutive declarations × {nothing, doc comment, detached comment} above × {trailing comment or not}, as struct fields, ungrouped vars and grouped consts",
+			Rule: "every layout of ≤ 3 consecutive declarations × {nothing, doc comment, detached comment} above × {trailing comment or not}, as struct fields, ungrouped vars and grouped consts — each alone, behind a line directive naming a file of its own, and behind one naming the source file itself, with a documented declaration ahead of the directive",
 		},
 	}})
 }
